@@ -8,6 +8,7 @@ import TantivyModel.Proofs.DocSet.BufferedUnion
 import TantivyModel.Proofs.DocSet.IntersectionCount
 import TantivyModel.Proofs.DocSet.BufferedUnionSeek
 import TantivyModel.Proofs.DocSet.BufferedUnionDanger
+import TantivyModel.Proofs.DocSet.BufferedUnionFill
 import TantivyModel.Model.DocSet.Tree
 /-!
 # C13 — every DocSet is one sorted sequence under any mix of advance and seek
@@ -322,6 +323,44 @@ theorem C13_union_end_sticky_partial (hA : Lawful A VA WA)
     (hlegal : legalProg ⟨[], none⟩ prog = true) :
     implRun (BUnion.dsNF A H fx) s prog = specRun ⟨[], none⟩ prog :=
   (C13_end_sticky _ _ _ (BUnion.lawful_nf hA hscore hH hH0 fx) prog s hV hlegal).1
+
+/-- `fill_buffer` of the buffered union (three nested loops: pop the current bucket, move to the next
+bucket, refill the window) emits the next up-to-64 documents and leaves the cursor on the one after -/
+theorem C13_union_fill_buffer (hA : Lawful A VA WA)
+    (hscore : ∀ {c l}, VA c l → VA (A.score c).2 l) (H : Nat) (hH : 64 ∣ H) (hH0 : 0 < H) (fx : Fix)
+    (s : BUnion.State σ) (l : List Nat) (hV : BUnion.V VA H s l) :
+    (BUnion.fillBuffer fx A H s).1 = l.take BUFLEN
+      ∧ BUnion.V VA H (BUnion.fillBuffer fx A H s).2 (l.drop BUFLEN) :=
+  BUnion.fillBuffer_law hA hscore hH hH0 fx hV
+
+/-- **BufferedUnionScorer, full.** Every method of the model the driver runs (`BUnion.ds`), for every
+horizon `H` (multiple of 64), all lawful children, every setting of the repair switches.
+Supersedes `C13_union_lawful_partial`. The repaired behaviour of `seek_danger` / far `seek` is read
+from the extracted guards (= 1 on the current source). -/
+theorem C13_union_lawful (hA : Lawful A VA WA)
+    (hscore : ∀ {c l}, VA c l → VA (A.score c).2 l) (H : Nat) (hH : 64 ∣ H) (hH0 : 0 < H) (fx : Fix) :
+    Lawful (BUnion.ds A H fx) (BUnion.V VA H) (BUnion.W VA WA H) :=
+  BUnion.lawful hA hscore hH hH0 fx
+
+theorem C13_union_program_equiv (hA : Lawful A VA WA)
+    (hscore : ∀ {c l}, VA c l → VA (A.score c).2 l) (H : Nat) (hH : 64 ∣ H) (hH0 : 0 < H) (fx : Fix)
+    (s : BUnion.State σ) (l : List Nat) (hV : BUnion.V VA H s l) (prog : List Op)
+    (hlegal : legalProg ⟨l, none⟩ prog = true) :
+    implRun (BUnion.ds A H fx) s prog = specRun ⟨l, none⟩ prog :=
+  C13_program_equiv _ _ _ (BUnion.lawful hA hscore hH hH0 fx) prog s l hV hlegal
+
+theorem C13_union_end_sticky (hA : Lawful A VA WA)
+    (hscore : ∀ {c l}, VA c l → VA (A.score c).2 l) (H : Nat) (hH : 64 ∣ H) (hH0 : 0 < H) (fx : Fix)
+    (s : BUnion.State σ) (hV : BUnion.V VA H s []) (prog : List Op)
+    (hlegal : legalProg ⟨[], none⟩ prog = true) :
+    implRun (BUnion.ds A H fx) s prog = specRun ⟨[], none⟩ prog :=
+  (C13_end_sticky _ _ _ (BUnion.lawful hA hscore hH hH0 fx) prog s hV hlegal).1
+
+/-- instantiated at the extracted horizon -/
+theorem C13_union_lawful_extracted (hA : Lawful A VA WA)
+    (hscore : ∀ {c l}, VA c l → VA (A.score c).2 l) (fx : Fix) :
+    Lawful (BUnion.ds A Gen.UNION_HORIZON fx) (BUnion.V VA Gen.UNION_HORIZON) (BUnion.W VA WA Gen.UNION_HORIZON) :=
+  BUnion.lawful hA hscore (by decide) (by decide) fx
 
 /-- the extracted horizon satisfies the side conditions -/
 theorem C13_union_horizon_ok : 64 ∣ Gen.UNION_HORIZON ∧ 0 < Gen.UNION_HORIZON
